@@ -78,6 +78,9 @@ class FlattenBase(Contract):
             st.ghost['attr:' + attr] = res.ref            # an attribute of THIS object
 
     def on_dict_keys_result(self, eng, st, d, r, n):
+        # the keys are read ONCE: the children visited, the recorded key list and the recorded original order all stem from
+        # that one reading, whatever callbacks do to the source dict during the descent (C14)
+        eng.oblige(st, 'III', 'exactly-one-key-list-is-made-per-dict-node', z3.BoolVal(st.ghost.get('dict_keys') is None), n.get('line'))
         st.ghost['dict_keys'] = r                          # the key list made for THIS dict node
 
     def on_sort(self, eng, st, o, n):
